@@ -47,6 +47,8 @@ pub use crate::adapters::{
 	HttpSlateSender, PathToSlate, PathToSlatepack, SlateGetter, SlatePutter, SlateReceiver,
 	SlateSender,
 };
+#[cfg(grin_wallet_verif)]
+pub use crate::backends::verif_effects;
 pub use crate::backends::{wallet_db_exists, LMDBBackend};
 pub use crate::error::Error;
 pub use crate::lifecycle::DefaultLCProvider;
